@@ -26,7 +26,11 @@ THEMES = {
     "doctype": ["<!DOCTYPE html>", "<!DOCTYPE html PUBLIC \"-//W3C//DTD HTML 4.01 Transitional//EN\">",
                 "<!DOCTYPE html PUBLIC \"-//W3C//DTD HTML 4.01 Transitional//EN\" \"x\">", "<!DOCTYPE html PUBLIC \"-//W3C//DTD XHTML 1.0 Frameset//EN\" \"x\">",
                 "<!DOCTYPE x>", "<!DOCTYPE html SYSTEM \"about:legacy-compat\">", "<!DOCTYPE html PUBLIC \"HTML\">", "<!DOCTYPE>",
-                "<p>", "<table>", "x", " ", "<!--c-->", "</p>"],
+                "<p>", "<table>", "x", " ", "<!--c-->", "</p>",
+                # missing / empty / other for both identifiers
+                "<!DOCTYPE html PUBLIC \"-//W3C//DTD HTML 4.01 Transitional//EN\" \"\">", "<!DOCTYPE html PUBLIC \"\" \"\">",
+                "<!DOCTYPE html SYSTEM \"\">", "<!DOCTYPE html PUBLIC \"-//W3C//DTD XHTML 1.0 Transitional//EN\" \"\">",
+                "<!DOCTYPE html PUBLIC \"-//W3C//DTD XHTML 1.0 Transitional//EN\">"],
 }
 # html5lib treats template as an ordinary special element (named deviation tc-no-template: the intended model has the
 # standard's template rules, and its theorems are checked over this alphabet as well)
